@@ -333,6 +333,10 @@ CHECK_DEADLOCK FALSE
             m["non_ascii_names"] = any(ord(ch) > 127 for n in e["names"] for ch in n)
         ctx.violation(f"beacon client set-up rejected by ClientIO ({','.join(failed)})", m, d)
     ctx.sample({"id_event": next(x for x in ev if x["op"] == "id")})
+    # the three layers of options (command line > defaults dictionary > configuration / random) in front of the set-up: ClientSetup.tla
+    from vt.checks import xclientsetup
+
+    xclientsetup.setup_part(ctx)
     ctx.notes["rule"] = ("dispatch: every registry state of Client.tla's dumped graph (<= MaxReg registrations over {sleep, cd, empty task, catch-all} x handler ids, 5 method sets) "
                          "rebuilt through register_task / @handle / @catch_all and driven through the real beacon loop for every single dispatch, every ordered pair and every triple of "
                          "the same command; set-ups: boundary and random ids, ASCII / long / non-ASCII names for 1024 and 2048 bit keys, sleeptime x jitter samples; distinct = histories + set-ups")
